@@ -28,6 +28,7 @@ type c10Op struct {
 	Pause      time.Duration // pause before the next op
 	Block      string        // for *-during reads: nothing | first-fragment | partial-payload | partial-header
 	Beside     string        // for *-during writes: "" | ping | peer-ping: a control frame queued behind the blocked write
+	Chunks     []int         // write ops: non-empty = streamed through Writer with these chunk sizes
 }
 
 type c10Case struct {
@@ -49,9 +50,14 @@ func genC10(rt *rapid.T) c10Case {
 		o.Compressed = rapid.Bool().Draw(rt, "compressed")
 		o.PongDelay = rapid.SampledFrom([]time.Duration{0, time.Millisecond, 2 * time.Second}).Draw(rt, "pongDelay")
 		o.Pause = rapid.SampledFrom([]time.Duration{0, 0, time.Millisecond, 2 * time.Second}).Draw(rt, "pause")
+		if o.Kind == "write" && rapid.Bool().Draw(rt, "streamed") {
+			for k := rapid.IntRange(1, 3).Draw(rt, "nChunks"); k > 0; k-- {
+				o.Chunks = append(o.Chunks, rapid.SampledFrom([]int{1, 100, 4080, 4088, 4089, 4090, 4092, 4093, 4094, 4095, 4096, 4097, 9000}).Draw(rt, "chunk"))
+			}
+		}
 		if i == n-1 && during {
 			o.Ctx = rapid.SampledFrom([]string{"cancel-during", "deadline-during"}).Draw(rt, "ctxDuring")
-			o.Block = rapid.SampledFrom([]string{"nothing", "first-fragment", "partial-payload", "partial-header"}).Draw(rt, "block")
+			o.Block = rapid.SampledFrom([]string{"nothing", "first-fragment", "partial-payload", "partial-header", "pong-blocked"}).Draw(rt, "block")
 			o.Beside = rapid.SampledFrom([]string{"", "ping", "peer-ping"}).Draw(rt, "beside")
 			if o.Len < 3 {
 				o.Len = 300
@@ -206,7 +212,11 @@ func runC10(t fataler, c c10Case) (string, c10Result) {
 		switch o.Kind {
 		case "read":
 			var got []byte
-			if during {
+			if during && o.Block == "pong-blocked" {
+				// the peer sends a Ping but accepts no bytes: the library blocks writing the Pong from inside Read
+				lc.End.SetInBudget(0)
+				p.send(ref.Frame{Fin: true, Opcode: ref.OpPing, Payload: expand(ckText, 3, 100)})
+			} else if during {
 				sendMsg(o, payload, o.Block)
 			} else {
 				sendMsg(o, payload, "all")
@@ -227,7 +237,32 @@ func runC10(t fataler, c c10Case) (string, c10Result) {
 					payload = expand(ckText, 5, 300)
 				}
 			}
-			done = e.Call(func() { opErr = conn.Write(ctx, websocket.MessageBinary, payload) })
+			if len(o.Chunks) > 0 {
+				total := 0
+				for _, ch := range o.Chunks {
+					total += ch
+				}
+				payload = expand(ckText, uint64(i)*31+7, total)
+				chunks := o.Chunks
+				done = e.Call(func() {
+					w, err := conn.Writer(ctx, websocket.MessageBinary)
+					if err != nil {
+						opErr = err
+						return
+					}
+					rest := payload
+					for _, ch := range chunks {
+						if _, err := w.Write(rest[:ch]); err != nil {
+							opErr = err
+							return
+						}
+						rest = rest[ch:]
+					}
+					opErr = w.Close()
+				})
+			} else {
+				done = e.Call(func() { opErr = conn.Write(ctx, websocket.MessageBinary, payload) })
+			}
 			if !during {
 				if !within(done, 30*time.Second) {
 					return fmt.Sprintf("op %d write did not return", i), res
